@@ -220,6 +220,9 @@ class ExprMixin:
       return V(S.BOOL, t)
     rest = ast.BoolOp(op=e.op, values=vals[1:]) if len(vals) > 2 else vals[1]
     ast.copy_location(rest, e)
+    ts = z3.simplify(t)
+    if (isinstance(e.op, ast.And) and z3.is_false(ts)) or (isinstance(e.op, ast.Or) and z3.is_true(ts)):
+      return first      # short circuit decided statically: the rest is not evaluated (as in Python)
     if isinstance(e.op, ast.And):
       if self.pure_mode or self._pure(rest):
         r = self._eval_under(rest, t)
